@@ -9,9 +9,12 @@ import hashlib
 import numpy as np
 import torch
 
-DT = {"float32": torch.float32, "float64": torch.float64}
-NPDT = {"float32": np.float32, "float64": np.float64}
-DTNAME = {torch.float32: "float32", torch.float64: "float64"}
+DT = {"float32": torch.float32, "float64": torch.float64,
+      "bfloat16": torch.bfloat16, "float16": torch.float16}
+NPDT = {"float32": np.float32, "float64": np.float64,
+        "bfloat16": np.float32, "float16": np.float32}     # reduced precisions are cast afterwards
+DTNAME = {torch.float32: "float32", torch.float64: "float64",
+          torch.bfloat16: "bfloat16", torch.float16: "float16"}
 
 LAYOUTS = ("contig", "transposed", "step", "offset", "expand", "chlast", "rowstep", "chanslice")
 # "unbatched" (batch dimension dropped) is drawn separately: an invalid rank on the pinned tree
@@ -35,7 +38,10 @@ def _rnd(rng, shape, dtype, scale):
         f[-1] = np.inf
         if f.size > 2:
             f[f.size // 2] = -np.inf
-    return torch.from_numpy(np.ascontiguousarray(a.astype(NPDT[dtype])))
+    t = torch.from_numpy(np.ascontiguousarray(a.astype(NPDT[dtype])))
+    if dtype in ("bfloat16", "float16"):
+        t = t.to(DT[dtype])
+    return t
 
 
 def make_tensor(spec):
@@ -86,19 +92,27 @@ def _make_tensor(spec):
     return base, view
 
 
+def _np(d):
+    """numpy view of a detached tensor; dtypes numpy lacks (bfloat16) are
+    widened to float32 (injective, so bitwise comparison stays exact)"""
+    if d.dtype == torch.bfloat16:
+        d = d.float()
+    return d.contiguous().cpu().numpy()
+
+
 def raw_bytes(t):
     """Bytes of a tensor's values (contiguous order), NaN-safe."""
     with torch.no_grad():
         d = t.detach()
         if d.is_inference():
             d = d.clone()
-        return d.contiguous().cpu().numpy().tobytes()
+        return _np(d).tobytes()
 
 
 def storage_bytes(base):
     """Bytes of the whole storage behind `base` (base is a dense tensor)."""
     with torch.no_grad():
-        return base.detach().cpu().numpy().tobytes()
+        return _np(base.detach()).tobytes()
 
 
 def to_numpy(t):
@@ -106,7 +120,7 @@ def to_numpy(t):
         d = t.detach()
         if d.is_inference():
             d = d.clone()
-        return np.array(d.contiguous().cpu().numpy(), copy=True)
+        return np.array(_np(d), copy=True)
 
 
 def snap(obj):
